@@ -394,3 +394,18 @@ func (g *rootRig) stop(r *Res, prop string) {
 		r.V(prop, "goroutine-leak", "%d library goroutine(s) remain after the root was stopped: %v\n%s", len(gs), kit.CensusKeys(gs), kit.CensusText(gs, 6))
 	}
 }
+
+type metav1Object = metav1.Object
+
+func newEv(t kcache.EventType, o metav1.Object) kcache.Event { return kcache.NewEvent(t, o) }
+
+func (m *mirror) isSeeded() bool {
+	m.mu.Lock()
+	defer m.mu.Unlock()
+	return m.seeded
+}
+func (m *mirror) preReady() int {
+	m.mu.Lock()
+	defer m.mu.Unlock()
+	return m.preRdy
+}
